@@ -1,5 +1,6 @@
 SPECIFICATION Spec
 CONSTANTS
+  Deep = FALSE
   Mode = "noncanon"
 INVARIANTS EncodingOK ParseTotal FixedPoint
 CHECK_DEADLOCK FALSE
